@@ -10,7 +10,7 @@
 (* being evaluated at all - terminates.                                    *)
 (***************************************************************************)
 EXTENDS YamlGraph, TLC, Json
-CONSTANTS MaxA, MaxB, MaxR, DoExport
+CONSTANTS MaxA, MaxB, MaxR, MaxC, DoExport
 VARIABLES g
 
 Al(n) == [t |-> "a", n |-> n]
@@ -25,10 +25,18 @@ Stamp(owner, es) == [i \in 1..Len(es) |-> IF es[i].v = SC THEN [es[i] EXCEPT !.v
 
 \* duplicate explicit keys within one mapping are not valid YAML and outside the property
 NoDup(es) == \A i, j \in 1..Len(es) : (i # j /\ ~es[i].m /\ ~es[j].m) => es[i].k # es[j].k
-Init == \E a \in SeqsUpTo(EntriesOver({"x", "y"}), MaxA) :
+\* C: a mapping defined INLINE inside A and never aliased - so it carries no anchor in the rendering - which may
+\* merge or alias A or B: cycles closed through a node that is not an alias target
+EntriesA == EntriesOver({"x", "y"}) \cup {[m |-> FALSE, k |-> k, v |-> Def("C")] : k \in {"x", "y"}}
+CEntries == {[m |-> TRUE, k |-> "<<", v |-> Al("A")], [m |-> TRUE, k |-> "<<", v |-> Al("B")],
+             [m |-> FALSE, k |-> "x", v |-> SC], [m |-> FALSE, k |-> "y", v |-> Al("A")]}
+NumC(a) == Cardinality({i \in 1..Len(a) : a[i].v = Def("C")})
+Init == \E a \in SeqsUpTo(EntriesA, MaxA) :
           \E b \in SeqsUpTo(EntriesOver({"x", "y"}), MaxB) :
             \E r \in SeqsUpTo(EntriesOver({"x", "y", "z"}), MaxR) :
-              NoDup(a) /\ NoDup(b) /\ NoDup(r) /\ g = [A |-> Stamp("A", a), B |-> Stamp("B", b),
+              \E c \in SeqsUpTo(CEntries, MaxC) :
+              NumC(a) <= 1 /\ (NumC(a) = 0 => c = <<>>)
+              /\ NoDup(a) /\ NoDup(b) /\ NoDup(r) /\ NoDup(c) /\ g = [A |-> Stamp("A", a), B |-> Stamp("B", b), C |-> Stamp("C", c),
                    R |-> <<[m |-> FALSE, k |-> "defs", v |-> Q(<<Def("A"), Def("B")>>)]>> \o Stamp("R", r)]
 Next == FALSE /\ g' = g
 Spec == Init /\ [][Next]_g
